@@ -13,8 +13,11 @@ VERIF = os.path.dirname(os.path.dirname(os.path.abspath(__file__)))
 ALL = ['C%02d' % i for i in range(1, 21)]
 
 
+SEEDDIR = [os.path.join(VERIF, 'seeded')]
+
+
 def run_seed(seed, checks):
-    sd = os.path.join(VERIF, 'seeded', seed)
+    sd = os.path.join(SEEDDIR[0], seed)
     wt = tempfile.mkdtemp(prefix='sm_%s_' % seed, dir='/tmp')
     ev = tempfile.mkdtemp(prefix='smev_%s_' % seed, dir='/tmp')
     os.rmdir(wt)
@@ -41,8 +44,11 @@ def main():
     ap.add_argument('--jobs', type=int, default=12)
     ap.add_argument('--only', nargs='*')
     ap.add_argument('--checks', nargs='*', default=ALL)
+    ap.add_argument('--dir', default=None, help='directory holding <seed>/patch.diff (default /verif/seeded)')
     a = ap.parse_args()
-    seeds = sorted(d for d in os.listdir(os.path.join(VERIF, 'seeded')) if os.path.isdir(os.path.join(VERIF, 'seeded', d)))
+    if a.dir:
+        SEEDDIR[0] = a.dir
+    seeds = sorted(d for d in os.listdir(SEEDDIR[0]) if os.path.isfile(os.path.join(SEEDDIR[0], d, 'patch.diff')))
     if a.only:
         seeds = [s for s in seeds if s in a.only]
     out = {}
@@ -57,7 +63,7 @@ def main():
             broken = [c for c, r in res.items() if r['rc'] not in (0, 1)]
             print('%-40s own=%s %-6s caught by: %s%s' % (seed, own, 'CAUGHT' if own in caught else 'MISSED', ' '.join(caught) or '-', ('  analysis-error: ' + ' '.join(broken)) if broken else ''))
             sys.stdout.flush()
-    if not a.only and a.checks == ALL:
+    if not a.only and a.checks == ALL and not a.dir:
         with open(os.path.join(VERIF, 'seeded', 'CATCH_MATRIX.json'), 'w') as f:
             json.dump(out, f, indent=1, sort_keys=True)
             f.write('\n')
